@@ -64,6 +64,34 @@ def _warm_up():
             value[0x77] = 'edited by another caller'
     clone = copy.copy(theirs)
     clone.filter_tid, clone.filter_process = 0x7777, 'another-caller'
+    # ... and does arithmetic with the library's public enum classes (a | b, a & b, ~a on Flag classes caches composite
+    # members in the class; membership tests, iteration, lookups by value and by name on the plain ones)
+    import enum
+    import itertools
+    from pykdebugparser.trace_handlers import fsystem, trace, turnstile
+    for module in (bsd, mach, perf, dyld, fsystem, trace, turnstile):
+        for obj in list(vars(module).values()):
+            if isinstance(obj, type) and issubclass(obj, enum.Enum) and obj.__module__ == module.__name__:
+                members = list(obj.__members__.values())[:12]
+                if issubclass(obj, enum.Flag):
+                    for a, b in itertools.combinations(members, 2):
+                        try:
+                            (a | b, a & b, ~a, a ^ b)
+                        except Exception:
+                            pass
+                    try:
+                        mask = members[0]
+                        for m in members:
+                            mask |= m
+                        obj(mask.value)
+                        ~mask
+                    except Exception:
+                        pass
+                for m in members:
+                    try:
+                        obj(m.value), obj[m.name], m in obj
+                    except Exception:
+                        pass
     data = wire.v2_file(gen.threadmap_for(events), 8, gen.events_to_records(events))
     front = PyKdebugParser()
     for cfg in (([4], []), ((4, 7), (0x301,)), ([], [0x40c]), ([], [])):
